@@ -402,6 +402,7 @@ func runC09(c *Ctx) Verdict {
 
 	var verdict Verdict
 	var d *harness.Daemon
+	closedEarly := false
 	recs := map[string]*harness.RecHandler{}
 	for _, t := range []string{"t0", "t1", "pub", "agg"} {
 		recs[t] = &harness.RecHandler{Name: "R_" + t}
@@ -591,6 +592,23 @@ func runC09(c *Ctx) Verdict {
 		done := simrt.Expect("publishers, readers and registrar finish", 3_000_000, 2*time.Hour)
 		wg.Wait()
 		done()
+		closeEarly := len(sc.Publishers[0])%2 == 1
+		defer func() { closedEarly = closeEarly }()
+		for _, sp := range sc.Specs {
+			if sp.Kind == "aggregate" {
+				closeEarly = false // (what an aggregate handler owes for an interval cut short by a shutdown is not stated)
+			}
+		}
+		if closeEarly {
+			// the daemon shuts down while handlers still have events queued: closing the service hands them over first
+			simrt.Count("probe.service_closed_with_handler_backlog")
+			done := simrt.Expect("alert service close", 3_000_000, 24*time.Hour)
+			d.Alert.Close()
+			done()
+			simrt.Fair()
+			simrt.WaitIdle()
+			return
+		}
 		simrt.Fair()
 		simrt.WaitIdle()
 		// let aggregate intervals elapse
@@ -810,7 +828,9 @@ func runC09(c *Ctx) Verdict {
 			lo = 0
 		}
 		if got < lo {
-			return Fail("publish/lost", "event %s (level %d, prev %v) matches %d publish handler(s) registered for the whole run on %s but was republished %d time(s)", cl.msg, cl.ev.Level, o.prev, lo, cl.ev.Topic, got)
+			v := Fail("publish/lost", "event %s (level %d, prev %v) matches %d publish handler(s) registered for the whole run on %s but was republished %d time(s)", cl.msg, cl.ev.Level, o.prev, lo, cl.ev.Topic, got)
+			v.Shape = map[string]interface{}{"service_closed_with_handler_backlog": closedEarly}
+			return v
 		}
 		if got > hi {
 			return Fail("publish/duplicate", "event %s was republished %d times; at most %d publish handlers could match it", cl.msg, got, hi)
